@@ -340,3 +340,109 @@ package go9p
 //@   ensures  err == nil ==> hdr(fc, 9+statsize(d, dotu), 125) && u16le(fc.Pkt, 7) == statsize(d, dotu) && wstat(fc.Pkt, 9, d, dotu)
 //@   ensures  err == nil ==> direq(fc.Dir, d)
 //@   assigns  fc.Size, fc.Type, fc.Tag, fc.Pkt, all(fc.Dir), fc.Buf[0:9+statsize(d, dotu)]
+
+//@ func InitRread(fc, count) (err)
+//@   property C01 C12 C14
+//@   requires fc != nil && count <= 4294967284
+//@   ensures  err == nil <==> len(fc.Buf) >= 11 + count
+//@   ensures  err == nil ==> hdr(fc, 11+count, 117) && u32le(fc.Pkt, 7) == count && fc.Count == count && fc.Data == fc.Pkt[11:11+count]
+//@   ensures  mem_unchanged_except(fc.Buf, 0, 11)
+//@   assigns  fc.Size, fc.Type, fc.Tag, fc.Pkt, fc.Count, fc.Data, fc.Buf[0:11]
+
+// State left by InitRread: Pkt = header+count+data window, Data = Pkt[11:].
+//@ pure rreadinit(fc) = fc.Pkt != nil && len(fc.Pkt) >= 11 && len(fc.Pkt) <= 4294967295 && fc.Data == fc.Pkt[11:len(fc.Pkt)]
+
+//@ func SetRreadCount(fc, count)
+//@   property C01 C12 C14
+//@   requires fc != nil && rreadinit(fc) && count <= len(fc.Pkt) - 11
+//@   ensures  fc.Size == 11 + count && fc.Count == count && len(fc.Pkt) == 11 + count
+//@   ensures  obj(fc.Pkt) == obj(old(fc.Pkt)) && off(fc.Pkt) == off(old(fc.Pkt)) && fc.Data == fc.Pkt[11:11+count]
+//@   ensures  u32le(fc.Pkt, 0) == 11 + count && u32le(fc.Pkt, 7) == count
+//@   ensures  bytes_unchanged(fc.Pkt, 4, 7) && bytes_unchanged(fc.Pkt, 11, 11+count)
+//@   assigns  fc.Size, fc.Count, fc.Pkt, fc.Data, fc.Pkt[0:4], fc.Pkt[7:11]
+
+//@ func PackRread(fc, data) (err)
+//@   property C01
+//@   requires fc != nil && len(data) <= 4294967284 && obj(data) != obj(fc.Buf)
+//@   ensures  err == nil <==> len(fc.Buf) >= 11 + len(data)
+//@   ensures  err == nil ==> hdr(fc, 11+len(data), 117) && u32le(fc.Pkt, 7) == len(data) && fc.Count == len(data)
+//@                           && byteseqold(fc.Pkt, 11, data, 0, len(data))
+//@   assigns  fc.Size, fc.Type, fc.Tag, fc.Pkt, fc.Count, fc.Data, fc.Buf[0:11+len(data)]
+
+// With the Akaros flag the error text is re-formatted by fmt.Sprintf; the layout is stated over the text actually sent (fc.Error).
+//@ pure rerrorsz(fc, dotu) = 9 + len(fc.Error) + ite(dotu, 4, 0)
+//@ func PackRerror(fc, error, errornum, dotu) (err)
+//@   property C01 C12
+//@   requires fc != nil && len(error) <= 65535 && Akaros != nil
+//@   at call(fmt.Sprintf) ensures len(ret) <= 65535
+//@   ensures  err == nil ==> hdr(fc, rerrorsz(fc, dotu), 107) && wstr(fc.Pkt, 7, fc.Error) && (dotu ==> u32le(fc.Pkt, 9+len(fc.Error)) == errornum && fc.Errornum == errornum)
+//@   ensures  err == nil && !deref(Akaros) ==> fc.Error == error
+//@   ensures  !deref(Akaros) ==> (err == nil <==> len(fc.Buf) >= 9 + len(error) + ite(dotu, 4, 0))
+//@   assigns  fc.Size, fc.Type, fc.Tag, fc.Pkt, fc.Error, fc.Errornum, elems(fc.Buf)
+
+// ---------------------------------------------------------------------------
+// Twalk / Rwalk: repeated fields. nsum(a, o, i) = total length of the i strings a[o], .., a[o+i-1].
+
+//@ rec nsum(a arr, o int, i int) int
+//@   axiom forall a arr, o int :: nsum(a, o, 0) == 0
+//@   axiom forall a arr, o int, i int {nsum(a, o, i)} :: i >= 0 ==> nsum(a, o, i+1) == nsum(a, o, i) + slenid(a[o+i])
+
+//@ lemma nsum_nonneg(a arr, o int, i int)
+//@   property C01 C02
+//@   hyp   0 <= i
+//@   concl 0 <= nsum(a, o, i)
+//@   induction i
+//@   trigger nsum(a, o, i)
+
+//@ lemma nsum_mono(a arr, o int, i int, j int)
+//@   property C01 C02
+//@   hyp   0 <= i && i <= j
+//@   concl nsum(a, o, i) <= nsum(a, o, j)
+//@   induction j
+//@   trigger nsum(a, o, i), nsum(a, o, j)
+
+//@ pure twalksz(w) = 17 + 2*len(w) + nsum(old(elemsof(w)), off(w), len(w))
+//@ pure nameoff(w, k) = 17 + 2*k + nsum(old(elemsof(w)), off(w), k)
+
+//@ func PackTwalk(fc, fid, newfid, wnames) (err)
+//@   property C01
+//@   uses nsum_mono nsum_nonneg
+//@   requires fc != nil && len(wnames) <= 65535 && twalksz(wnames) <= 4294967295
+//@   requires forall k int :: 0 <= k && k < len(wnames) ==> len(wnames[k]) <= 65535
+//@   ensures  err == nil <==> len(fc.Buf) >= twalksz(wnames)
+//@   ensures  err == nil ==> hdr(fc, twalksz(wnames), 110) && u32le(fc.Pkt, 7) == fid && u32le(fc.Pkt, 11) == newfid && u16le(fc.Pkt, 15) == len(wnames)
+//@   ensures  err == nil ==> forall k int :: 0 <= k && k < len(wnames) ==> wstr(fc.Pkt, nameoff(wnames, k), wnames[k])
+//@   ensures  err == nil ==> fc.Fid == fid && fc.Newfid == newfid && len(fc.Wname) == len(wnames)
+//@   ensures  err == nil ==> forall k int :: 0 <= k && k < len(wnames) ==> fc.Wname[k] == wnames[k]
+//@   assigns  fc.Size, fc.Type, fc.Tag, fc.Pkt, fc.Fid, fc.Newfid, fc.Wname, fc.Buf[0:twalksz(wnames)]
+//@   loop 1
+//@     invariant 0 <= i && i <= nwname && nwname == len(wnames)
+//@     invariant size == 10 + 2*nwname + nsum(elemsof(wnames), off(wnames), i)
+//@     invariant nsum(elemsof(wnames), off(wnames), i) <= 65535 * i
+//@   loop 2
+//@     invariant 0 <= i && i <= nwname && nwname == len(wnames) && err == nil
+//@     invariant p == fc.Buf[nameoff(wnames, i):] && len(fc.Buf) >= twalksz(wnames)
+//@     invariant hdr(fc, twalksz(wnames), 110) && u32le(fc.Buf, 7) == fid && u32le(fc.Buf, 11) == newfid && u16le(fc.Buf, 15) == nwname
+//@     invariant forall k int :: 0 <= k && k < i ==> wstr(fc.Buf, nameoff(wnames, k), wnames[k])
+//@     invariant forall k int :: 0 <= k && k < i ==> fc.Wname[k] == wnames[k]
+//@     invariant others_unchanged(fc.Wname) && obj(fc.Wname) != obj(wnames)
+//@     invariant mem_unchanged_except(fc.Buf, 0, nameoff(wnames, i))
+//@     invariant fresh(fc.Wname) && len(fc.Wname) == nwname
+
+//@ func PackRwalk(fc, wqids) (err)
+//@   property C01
+//@   requires fc != nil && len(wqids) <= 65535
+//@   ensures  err == nil <==> len(fc.Buf) >= 9 + 13*len(wqids)
+//@   ensures  err == nil ==> hdr(fc, 9+13*len(wqids), 111) && u16le(fc.Pkt, 7) == len(wqids)
+//@   ensures  err == nil ==> forall k int :: 0 <= k && k < len(wqids) ==> wqid(fc.Pkt, 9+13*k, wqids[k])
+//@   ensures  err == nil ==> len(fc.Wqid) == len(wqids) && forall k int :: 0 <= k && k < len(wqids) ==> qideq(fc.Wqid[k], wqids[k])
+//@   assigns  fc.Size, fc.Type, fc.Tag, fc.Pkt, fc.Wqid, fc.Buf[0:9+13*len(wqids)]
+//@   loop 1
+//@     invariant 0 <= i && i <= nwqid && nwqid == len(wqids) && err == nil
+//@     invariant p == fc.Buf[9+13*i:] && len(fc.Buf) >= 9 + 13*nwqid
+//@     invariant hdr(fc, 9+13*nwqid, 111) && u16le(fc.Buf, 7) == nwqid
+//@     invariant forall k int :: 0 <= k && k < i ==> wqid(fc.Buf, 9+13*k, wqids[k])
+//@     invariant forall k int :: 0 <= k && k < i ==> qideq(fc.Wqid[k], wqids[k])
+//@     invariant others_unchanged(fc.Wqid)
+//@     invariant mem_unchanged_except(fc.Buf, 0, 9+13*i)
+//@     invariant fresh(fc.Wqid) && len(fc.Wqid) == nwqid && obj(fc.Wqid) != obj(wqids)
